@@ -1,6 +1,7 @@
 import getopt
 import os
 import pickle
+import signal
 import sys
 
 import gevent
@@ -206,10 +207,18 @@ class Main:
             bs.start()
 
         try:
+            # a supervisor stops the service with SIGTERM: leave like on Ctrl-C, so that the state is saved
+            sigterm = gevent.signal_handler(signal.SIGTERM, s.stream_server.stop)
+        except ValueError:  # not in the main thread
+            sigterm = None
+
+        try:
             s.run_forever()
         except KeyboardInterrupt:
             logger.info("interrupted")
         finally:
+            if sigterm is not None:
+                sigterm.cancel()
             self.savedb()
             workers.kill()
             if bs is not None:
